@@ -32,8 +32,8 @@ pub fn run(prop: &str, tier: &str, replay: Option<&str>) -> i32 {
     rep.assume("platform is Linux: LF line endings are required; the Windows CRLF branch cannot be exercised here");
     let children = if cfg!(feature = "ring") { vec![run::spawn_child("aws", prop, tier)] } else { vec![] };
     let zoo = load_zoo();
-    let ed = zoo.iter().find(|z| z.kind == KeyKind::Ed25519).unwrap();
-    let kp = rc_load(ed, Alg::Ed25519).expect("ed25519 key");
+    // the signing key of the sweeps: the first Ed25519 fixture this tree loads (whether EVERY fixture loads is the key section's question)
+    let (ed, kp) = zoo.iter().filter(|z| z.kind == KeyKind::Ed25519 && z.format == KeyFormat::Pkcs8).find_map(|z| rc_load(z, Alg::Ed25519).ok().map(|k| (z, k))).expect("an ed25519 fixture key loads");
     let kpub = ed.key_pub(Alg::Ed25519);
     let issuer = make_issuer(&DnSpec::cn("pem issuer"), &KeyIdSpec::Sha256, &[], rc_load(ed, Alg::Ed25519).unwrap(), kpub.clone()).unwrap();
     let residues48 = std::sync::Mutex::new(std::collections::BTreeMap::<&'static str, std::collections::BTreeSet<usize>>::new());
@@ -201,6 +201,10 @@ pub fn run(prop: &str, tier: &str, replay: Option<&str>) -> i32 {
                 _ => "PRIVATE KEY",
             };
             check_pem("private key", &priv_pem, content_label, &priv_der, &mut f);
+            // both DER accessors say the same bytes (the text envelopes THE serialised key, not one of two)
+            if kp.serialized_der() != priv_der.as_slice() {
+                f.push(Finding::new("PEM-BYTES", "private key", "serialized_der() and serialize_der() return different bytes, so the PEM text cannot envelope both"));
+            }
             let pub_pem = kp.public_key_pem();
             let pub_der = kp.public_key_der();
             note("PUBLIC KEY", pub_der.len());
